@@ -139,6 +139,8 @@ def defects(rows):
         yield "field name starting with a digit", put(i, 1, "1abc"), i
         yield "field name with a blank inside", put(i, 1, "a b"), i
         yield "field name with a non-ASCII letter", put(i, 1, "näme"), i
+        yield "field name starting with a non-ASCII letter", put(i, 1, "änd"), i
+        yield "field name starting with a non-ASCII letter-like character", put(i, 1, "ª1"), i
         yield "field name is a keyword", put(i, 1, "class"), i
         yield "field name is a keyword with surrounding blanks", put(i, 1, "  lambda\t"), i
         yield "empty field name", put(i, 1, "  "), i
@@ -160,7 +162,8 @@ def defects(rows):
     for i in fi:
         r = (rows[i] + [""] * 7)[:7]
         if r[5] == "Integer": yield "broken integer rule", put(i, 6, "1...x"), i; yield "example outside the rule", put(i, 2, "x17"), i
-        if r[5] == "Choice": yield "choice rule with trailing comma", put(i, 6, "a, b,"), i; yield "example not among the choices", put(i, 2, "zzz"), i
+        if r[5] == "Choice": yield "choice rule with trailing comma", put(i, 6, "a, b,"), i; yield "example not among the choices", put(i, 2, "zzz"), i; yield "example that is a choice only after stripping blanks", put(i, 2, " a"), i
+        if r[5] == "Integer" and fmt != "fixed": yield "example of blanks only for an Integer field", put(i, 2, "  "), i
         if r[5] == "Decimal": yield "broken decimal rule", put(i, 6, "1...2...3"), i
         if r[5] == "RegEx": yield "broken regular expression", put(i, 6, "a[0-9"), i
         if r[5] == "Constant": yield "constant with two tokens", put(i, 6, "k k"), i
